@@ -12,7 +12,9 @@ import threading
 
 from mc.kernel import h64
 
-TRACE_DIR = "/repo/eyecite/"
+import os
+
+TRACE_DIR = os.path.realpath(os.environ.get("VERIF_REPO") or "/repo") + "/eyecite/"
 
 
 class Divergence(Exception):
